@@ -40,16 +40,34 @@ RULE = ('template trees over 13 node kinds (constant, table hold/jump/linear, po
         'mappings of parameters and channels, a parameter called t, one template object in several places + warm-up '
         'instantiation with other values + decoy-grid / repeated / output_array sampling, the longest table channel dropped, '
         'declared-as-empty overwrite / scalar mapping / None arguments, AtomicMultiChannelPT parts with parameterised '
-        'durations (0, negative, dropped, all zero, under a loop).  Non-trivial = tree with >= 3 nodes that instantiates to a program.')
+        'durations (0, negative, dropped, all zero, under a loop).  Round 4 (c01_gen3): DECIMAL stream = real templates '
+        '(repetition / for-loop / sequence / mapping / reversal / arithmetic / parallel over two-entry ramps, function ramps, '
+        'points, constants, multi-channel and arithmetic atoms whose start and end values differ by >= 1) with durations '
+        'k/10, k/5, k/20, k/100, k/3, k/12, k/6, k/7 handed over as float / decimal string / fraction string / Fraction '
+        'literal / TimeType (literal or parameter), as products d*k, d*i of TimeType parameters and as i/den; grid = every '
+        'junction (correctly rounded double of the exact rational) + interior points + t = duration; plotting.render at '
+        'sample rates 10, 20, 5, 2.5, 30, 3, 12, 6, 1.5, 2.4, 4.8, 24, 7, 14, 100, 50, 40 (int / float / Fraction / TimeType); '
+        'deterministic family duration x position x form x shape x count (quick: 90 of them, thorough: every '
+        'duration x position x form x shape); values compared under the tolerance 2^-30, everything else exactly.  Flagged '
+        'family of three-entry tables at a non-zero decimal offset (known finding).  Variations of the generic stream: pure '
+        'constants as Python numbers, parameters as Scope object, parameters as numpy scalars (float64 / int64 / uint16); '
+        'edge family: create_program defaults, right-only constant channel of ArithmeticAtomicPT, channel ids -1 / -2 '
+        '(colliding hashes), zero-duration tables / points alone, in sequences, repeated, looped; the empty sample grid.  '
+        'Non-trivial = tree with >= 3 nodes that instantiates to a program.')
 TRUSTED = [
     'Coq 8.16.1 kernel + vm_compute (no native_compute)',
     'harness: generator, construction of the qupulse objects from the JSON tree, exact float->rational conversion, '
     'Gallina printers, exception -> error-kind mapping',
     'numpy / sympy / gmpy2 behave as modelled on dyadic inputs (binary64 arithmetic exact there)',
+    'decimal stream: binary64 rounding of the sample VALUES is not modelled; it is bounded by the declared absolute '
+    'tolerance 2^-30 (checked, counted apart as inexact_cases); durations, channel sets and junction assignment are exact',
     'pointwise reading of the vectorised samplers (searchsorted slices) for sorted grids',
 ]
 ASSUMPTIONS = [
-    'generated numbers are dyadic with small numerators so that numpy float arithmetic is exact',
+    'generated numbers are dyadic with small numerators so that numpy float arithmetic is exact (all streams but the decimal one)',
+    'decimal stream: only number forms that reach the waveform as the exact rational (measured: decimal fractions in every '
+    'form; thirds / twelfths / sevenths as TimeType, and as fraction string / Fraction in table entry times and FunctionPT '
+    'durations); a Fraction as parameter VALUE is rejected by qupulse (NonNumericEvaluation) and is not generated',
     'checked_int_cast tolerance (1e-6) is outside the generated domain',
     'no zero-length linear table segment (tbl_guard); channel mappings injective on the complete mapping',
     'FunctionPT: affine expressions a + b*t with positive duration only',
@@ -108,6 +126,13 @@ def gen_cases(rng, tier, ctx):
         if j % 6 == 1:
             c2['as_scope'] = True
         cases.append(c2)
+    # ... and with the parameter values handed over as numpy scalars (float64 / int64; unsigned 16 bit for non-negative
+    # integers: `p - 2` must not wrap around)
+    for j, c in enumerate(rng.sample([c for c in base if c['params']], 30 if tier == 'quick' else 600)):
+        c2 = dict(c)
+        c2['ptypes'] = {k: ('npu' if j % 2 else 'np') for k in c['params']}
+        c2['nptypes'] = 'unsigned' if j % 2 else 'signed'
+        cases.append(c2)
     cases.extend(G3.gen_edge_cases(rng))
     for c in rng.sample(base, 30 if tier == 'quick' else 600):
         c2 = dict(c)
@@ -150,6 +175,11 @@ def _form(v, form):
         return '%d/%d' % (v.numerator, v.denominator)
     if form == 'fraction':
         return v
+    if form in ('np', 'npu'):            # numpy scalars: float64 / int64, or unsigned for non-negative integers
+        import numpy as np
+        if v.denominator != 1:
+            return np.float64(float(v))
+        return np.uint16(int(v)) if form == 'npu' and 0 <= v < 60000 else np.int64(int(v))
     if form == 'time':
         from qupulse.utils.types import TimeType
         return TimeType.from_fraction(v.numerator, v.denominator)
@@ -631,7 +661,7 @@ def histogram_keys(case, obs):
             keys.append('dec-rate:%s' % r)
         if obs.get('render_off_grid'):
             keys.append('dec-render-linspace-off-by-ulp')
-    for tag in ('selfmap', 'alias', 'dropped', 'tname_shape', 'multizero', 'dec_form'):
+    for tag in ('selfmap', 'alias', 'dropped', 'tname_shape', 'multizero', 'dec_form', 'nptypes'):
         if tag in case:
             keys.append('%s:%s' % (tag, case[tag]))
     for tag in ('tname', 'warm', 'top_none', 'idx_rebound', 'multi_zero', 'dec_inner', 'numobj', 'as_scope', 'edge'):
@@ -851,7 +881,16 @@ MANIFEST = {
                   'a part of duration 0 whose channel is kept (C01_multi_zero_refuted, C01_multi_zero_unplayable). The model '
                   'is tied to /repo by an exact correspondence check (13 node kinds; get_sampled and plotting.render samples '
                   'on junction-aligned and off-grid points; shared template objects, warm-up instantiation, repeated / decoy '
-                  'sampling), and the denotation is evaluated directly on the implementation as the specification oracle.',
+                  'sampling), and the denotation is evaluated directly on the implementation as the specification oracle. '
+                  'Round 4: decimal stream (Coq case constructor CDec): durations and sample rates off the dyadic grid through '
+                  'real templates, compared with the exact rational model and denotation under the declared tolerance 2^-30 '
+                  '(durations / channels / junction assignment exact); C01_repetition_restarts / C01_repetition_boundary: the '
+                  'model restarts a repeated body exactly at k * duration for every rational duration (the reference the '
+                  'stream checks the code against; seeded change C01-5 = boundaries accumulated in binary64 is caught). '
+                  'Found and repaired in /repo through the new streams: NaN as first sample of a time reversed table with '
+                  'exact-rational entry times, spurious padding entry for mixed exact / float final times (9148363), '
+                  'wrap-around of unsigned numpy parameter values (d131b58). Fourth known finding: a table with an inner entry '
+                  'at a non-zero decimal offset answers a grid point on the entry with the earlier segment.',
     'level_note': '_partial: C01_sampling_partial assumes that to_waveform succeeds (guaranteed by qupulse constructors '
                   'for well-formed templates, not by the model). ArithmeticAtomicPT with an operand of duration 0 plays the '
                   'other operand alone; there the specification still mirrors the code (observed, not classified). '
@@ -859,8 +898,10 @@ MANIFEST = {
                   '(C01_errors_statement is false as stated: eager scope evaluation in ArithmeticPT, non-injective '
                   'channel mappings). Not modelled: non-affine FunctionPT expressions (the affine FunctionWaveform is '
                   'represented by the observationally equal linear table), time-dependent transformation values, '
-                  'to_single_waveform, measurements, constraints, volatile parameters. Float rounding is modelled away '
-                  '(dyadic inputs). Trusted: Coq kernel, harness, numpy/sympy on the generated domain.',
+                  'to_single_waveform, measurements, constraints, volatile parameters, composite templates used as atoms '
+                  '(MappingPT / ParallelChannelPT / TimeReversalPT / ArithmeticPT.build_waveform inside AtomicMultiChannelPT). '
+                  'Float rounding is modelled away (dyadic inputs) or bounded by the declared tolerance (decimal stream); no '
+                  'theorem speaks about binary64. Trusted: Coq kernel, harness, numpy/sympy on the generated domain.',
     'technique': 'Coq proof by induction on the template tree over an operational model + exact correspondence check '
                  '+ denotational oracle evaluated in Coq on the implementation\'s samples',
     'design_ref': 'DESIGN.md §5 C01, §4.4, Appendix D3',
